@@ -9,10 +9,17 @@ THEOREMS = ["C07.accumulator_exact", "C07.bias_scale_necessary", "C07.dot_pertur
 
 
 def gen(rng, i):
+    if i % 7 == 5:
+        # tied constants (shared weights / one bias tensor shared by operators whose inputs have different ranges)
+        mb, info = gm.gen_tied(rng, shared_bias=0.6)
+        data = gm.random_inputs(mb, rng, n=1, scale=1.0)
+        cfg = pl.UNIFORM[rng.choice(["a8w8", "a8sw8t", "a16w8"])]
+        cmds = [{"k": "add", "regex": ".*", "operation": "*", "cfg": cfg, "alg": "min_max_uniform_quantize"}]
+        return fp.Case(mb, info, cmds=cmds, data=data, desc=[("tied", cfg["act"]["bits"], cfg["weight"]["bits"])])
     mb, info = gm.gen_model(rng, n_ops=rng.randint(1, 4), n_subgraphs=1, p_unsupported=0.1,
                              const_kinds=gm.BENIGN_KINDS if i % 6 else None)
     data = gm.random_inputs(mb, rng, n=1, scale=1.0)
-    cfg = pl.UNIFORM[rng.choice(["a8w8", "a8w8", "a8sw8t", "a16w8", "a8w4"])]
+    cfg = pl.UNIFORM[rng.choice(["a8w8", "a8w8", "a8sw8t", "a16w8", "a8w4", "a16w4", "a8sw4t"])]
     cmds = [{"k": "add", "regex": ".*", "operation": "*", "cfg": cfg, "alg": "min_max_uniform_quantize"}]
     return fp.Case(mb, info, cmds=cmds, data=data, desc=[("*", cfg["act"]["bits"], cfg["weight"]["bits"])])
 
